@@ -34,6 +34,9 @@ type Cfg struct {
 	// StartEmpty: the first life already starts with an emptied LMDB (the instance was just restarted
 	// on a fresh machine); its own snapshot is in the bucket.
 	StartEmpty bool `json:"start_empty"`
+	// ForceInterval: storage_force_snapshot_interval is enabled; "the interval elapses" is an environment answer
+	// offered whenever the loop sleeps (once per life).
+	ForceInterval bool `json:"force_interval"`
 }
 
 type Viol struct{ Sig, Msg string }
@@ -47,19 +50,20 @@ type Result struct {
 const base = uint64(1_600_000_000_000_000_000)
 
 type W struct {
-	cfg      Cfg
-	mu       sync.Mutex
-	clock    uint64
-	b        *world.Bucket
-	viols    []Viol
-	prevJ    map[string]world.Ver
-	crashed  bool
-	life     int
+	cfg        Cfg
+	mu         sync.Mutex
+	clock      uint64
+	b          *world.Bucket
+	viols      []Viol
+	prevJ      map[string]world.Ver
+	crashed    bool
+	life       int
 	ownAtStart string // newest own snapshot when this life started
 	ownMerged  bool
 	ownLoaded  bool
-	puts     int
-	lastEvent string
+	puts       int
+	lastEvent  string
+	overdue    bool // the forced-snapshot interval elapses before the loop's next deadline check
 }
 
 func (w *W) now() uint64 {
@@ -127,9 +131,26 @@ func Run(cfg Cfg, ctx *explore.Ctx) Result {
 	}
 	w := &W{cfg: cfg, clock: base, b: world.NewBucket()}
 	verifhook.SetSkip(func(string) bool { return true })
-	verifhook.SetNow(func(string, time.Time) time.Time { return time.Unix(0, int64(w.now())) })
+	verifhook.SetNow(func(site string, t time.Time) time.Time {
+		if site == "sync.lastSnapshotTime" {
+			// the deadline of the periodic forced snapshot: real time unless the harness lets the interval elapse
+			w.mu.Lock()
+			defer w.mu.Unlock()
+			if w.overdue {
+				w.overdue = false
+				return t.Add(-1000 * time.Hour)
+			}
+			return t
+		}
+		return time.Unix(0, int64(w.now()))
+	})
 	defer verifhook.SetNow(nil)
-	opt := inst.Opt{Native: cfg.Native, Tweak: func(c *config.Config, lc *config.LMDB) { c.StorageRetryCount = 3 }}
+	opt := inst.Opt{Native: cfg.Native, Tweak: func(c *config.Config, lc *config.LMDB) {
+		c.StorageRetryCount = 3
+		if cfg.ForceInterval {
+			c.StorageForceSnapshotInterval = 100 * time.Hour
+		}
+	}}
 
 	put := func(a *inst.Inst, k, v string) {
 		a.AppTxn(func(txn *lmdb.Txn) error {
@@ -280,6 +301,8 @@ func (w *W) runLife(a *inst.Inst, ctx *explore.Ctx, totalSteps *int, put func(a 
 	}
 	loopFirsts := 0
 	bgPending := false
+	overdueUsed := false
+	var lmdbPoll func(loop, recvSleep, retrySleep *sched.P) []sched.Choice
 	// book: bookkeeping when the loop goroutine is seen at a new park
 	book := func(loop *sched.P) {
 		if loop.Seq() == lastSeq {
@@ -352,21 +375,19 @@ func (w *W) runLife(a *inst.Inst, ctx *explore.Ctx, totalSteps *int, put func(a 
 		w.lastEvent = loop.Point
 		switch {
 		case loop.Point == "sleep.lmdbpoll":
-			if retrySleep != nil {
-				// a download failed: the storage poll (1 s) fires before the retry timer (5 s)
-				idle = 0
-				if recvSleep != nil && !polledBeforeRetry {
-					return []sched.Choice{{Label: "receiver-polls", Act: &sched.Action{Do: func() { polledBeforeRetry = true; s.Release(recvSleep, 0) }}},
-						{Label: "retry-timer-fires-first", Cost: 1, Act: &sched.Action{Do: func() { s.Release(retrySleep, 0) }}}}
-				}
-				return []sched.Choice{{Label: "retry-timer-fires", Act: &sched.Action{Do: func() { polledBeforeRetry = false; s.Release(retrySleep, 0) }}},
-					{Label: "lmdb-poll-fires", Cost: 1, P: loop}}
+			out := lmdbPoll(loop, recvSleep, retrySleep)
+			if cfg.ForceInterval && !overdueUsed {
+				out = append(out, sched.Choice{Label: "force-snapshot-interval-elapses", Cost: 1, Act: &sched.Action{Do: func() {
+					// ... and the loop's next iteration (its LMDB poll timer) comes before any other timer
+					overdueUsed = true
+					w.mu.Lock()
+					w.overdue = true
+					w.mu.Unlock()
+					idle = 0
+					s.Release(loop, 0)
+				}}})
 			}
-			if listedVer != bucketVer && recvSleep != nil {
-				idle = 0
-				return []sched.Choice{{Label: "receiver-polls", P: recvSleep}, {Label: "lmdb-poll-fires", Cost: 1, P: loop}}
-			}
-			return []sched.Choice{{Label: "lmdb-poll-fires", P: loop}}
+			return out
 		case strings.HasPrefix(loop.Point, "sleep."):
 			return one(loop, 0)
 		case strings.HasPrefix(loop.Point, "st."):
@@ -392,6 +413,25 @@ func (w *W) runLife(a *inst.Inst, ctx *explore.Ctx, totalSteps *int, put func(a 
 			}}})
 		}
 		return out
+	}
+	lmdbPoll = func(loop, recvSleep, retrySleep *sched.P) []sched.Choice {
+		{
+			if retrySleep != nil {
+				// a download failed: the storage poll (1 s) fires before the retry timer (5 s)
+				idle = 0
+				if recvSleep != nil && !polledBeforeRetry {
+					return []sched.Choice{{Label: "receiver-polls", Act: &sched.Action{Do: func() { polledBeforeRetry = true; s.Release(recvSleep, 0) }}},
+						{Label: "retry-timer-fires-first", Cost: 1, Act: &sched.Action{Do: func() { s.Release(retrySleep, 0) }}}}
+				}
+				return []sched.Choice{{Label: "retry-timer-fires", Act: &sched.Action{Do: func() { polledBeforeRetry = false; s.Release(retrySleep, 0) }}},
+					{Label: "lmdb-poll-fires", Cost: 1, P: loop}}
+			}
+			if listedVer != bucketVer && recvSleep != nil {
+				idle = 0
+				return []sched.Choice{{Label: "receiver-polls", P: recvSleep}, {Label: "lmdb-poll-fires", Cost: 1, P: loop}}
+			}
+			return []sched.Choice{{Label: "lmdb-poll-fires", P: loop}}
+		}
 	}
 	s.Install()
 	cctx, cancel := context.WithCancel(context.Background())
